@@ -34,6 +34,10 @@ CHECKS = {
    text="Two real Matter nodes with a pre-established secure session under a virtual clock and an adversarial datagram network: every schedule with at most k non-default adversary decisions (drop, duplicate, reorder, timer-first) is executed to completion, from the FIFO policy and from 'drop the first n datagrams of one direction' policies (n up to all), for CASE and PASE sessions and three receiver behaviours; oracles on every execution: application sees a duplicate-free in-order prefix, send is Ok only if delivered, fails with TxTimeout when everything is lost, succeeds when a transmission and the acknowledgement got through, back-off respected, duplicates re-acknowledged, sender never hangs.",
    note="Latency >= 1 ms, adversary acts at quiescent points; datagrams attributed to messages by size class and plain-header counter; two messages on one exchange per execution.",
    tech="stateless deviation-bounded DFS (iterative context bounding) over environment decisions of the real implementation"),
+ "C10": dict(cat="model_checking",
+   text="Two real nodes, two pre-established sessions between them (CASE and PASE) plus a third session of another peer at the device, a responder pool of two handlers. Part E: the client opens two to four concurrent exchanges on one or both sessions, each asking the device's handler for one behaviour (answer promptly, answer after the client gave up, accept and never answer, drop the exchange before / after reading); every schedule with at most k non-default adversary decisions (drop, duplicate, reorder, timer first, the first session vanishing at the device or at the client, the first session being marked expired at the device) is executed; then 60 s of quiet virtual time and a probe exchange on each session. Part F: every forged message (target node and session x honest / fresh exchange id x initiator flag x five opcode kinds x reliable x acknowledgement) at four moments of an honest held exchange, and pairs of them, with the exchange table compared before / after against the matching rule. Oracles: a reply only ever reaches the exchange that asked, a handler invocation only sees the messages of its own exchange and session, nothing is handled twice, only initiator messages of an exchange-opening kind on a non-expired session open an exchange, every client call returns, no exchange slot stays occupied, and the probes are answered.",
+   note="A message addressed to a live, owned exchange whose owner is busy sending occupies the single receive slot until the owner's MRP deadline (head-of-line blocking by design, bounded by about 6 s); the probe on that very session is then not owed an answer. Group and unsecured sessions are not part of the forged-message sweep.",
+   tech="stateless deviation-bounded DFS over environment decisions of the real two-node system + exhaustive forged-message enumeration with a per-step conformance check of the exchange table"),
  "C12": dict(cat="model_checking",
    text="BFS over histories of use / use-with-failing-store / burst-to-next-store-point / restart (check-in: also crash-after-use, invalidate, owed persist) on the three real counters through their real persistence paths over a recording KV store, from stored boundaries absent, small and next to the range wrap; oracles: no value twice, and every value covered by the durable boundary at the moment of use.",
    note="Fewer than one full range consumed per history; group values count as used when initiate_group returns an exchange carrying them; the check-in application follows the interface contract.",
